@@ -35,14 +35,14 @@ CLAIMED = {
             "Write sizes are boundary values, not all sizes.",
             "7/C08"),
     "C16": ("fault_enumeration",
-            "TLA+ monitor clauses for sticky destination failure (WsWriterMon AfterFailure) + TLC model with failing destination + trace validation with every destination-write index failing",
-            "Writer side of C16: for every depth-2 (thorough: 3) call history over 9 operations on 3 configurations, every index of the destination write fails (whole / after 1 byte / after all bytes); the following 8 calls must all report an error (ReadFrom: open) and the destination must see no further byte. TLC checks the same on WsWriterImpl (AfterFailNoWrites, Refines).",
-            "Reader/handshake truncation is added by the reader and handshake drivers.",
+            "TLA+ monitors (WsWriterMon AfterFailure, WsReaderMon cut clauses) + exhaustive TLC models with a failing destination / a cut stream (WsWriterImpl, WsReaderImpl_cut, planted BugBareLimitedReader) + trace validation with every destination-write index failing and every byte offset cut + record validation (C16Records) of the frame-level API and both handshakes cut at every offset",
+            "Writer: for every depth-2 (thorough: 3) call history over 9 operations on 3 configurations, every index of the destination write fails (whole / after 1 byte / after all bytes); the following calls must all report an error and the destination must see no further byte. Reader: 12 stream shapes cut at every byte offset as EOF and as a transport error through Reader/Discard/NextReader/ReadMessage/ReadData, judged by WsReaderMon. Frame level and handshakes (c16f): ws.ReadFrame/ReadHeader on payloads up to 3 MiB cut at every header offset and at payload offsets incl. every multiple of 2^20; Upgrader.Upgrade / Dialer.Upgrade cut at every byte of 4 / 3 message forms (EOF, EOF with data, error), handshake writes failing at call 1..4. TLC checks the models exhaustively (AfterFailNoWrites, Refines).",
+            "io.EOF for a frame of which no payload byte arrived counts as an error report. ReadFrom's return value after a destination failure is open.",
             "7/C16"),
     "C18": ("model_checking",
-            "TLA+ invariant ResetIsFresh on WsWriterImpl (TLC, exhaustive) + monitor Fresh-after-Reset + lock-step twin comparison in trace validation",
-            "Writer part of C18: every history (depth 2, thorough 3, over 12 operations incl. growth, disabled flushing, extension, source error, failing destination) followed by Reset(side', op') or PutWriter/GetWriter and every depth-2 suffix must be accepted by the monitor restarted in its Fresh state and must equal, event by event, a freshly constructed writer of the same Size(). TLC proves ResetIsFresh on the model for all bounded histories.",
-            "Other resettable objects (compression writer/reader, mask/UTF-8 readers, negotiator, message reader) are added by their drivers.",
+            "TLA+ invariants ResetIsFresh on WsWriterImpl and FlateStream (TLC, exhaustive; planted BugResetKeepsErr / BugResetKeepsTail must give counterexamples) + monitor Fresh-after-Reset + lock-step twin comparison in trace validation + record validation (C18Records) of the other resettable objects",
+            "Writer: every history (depth 2, thorough 3, over 12 operations incl. growth, disabled flushing, extension, source error, failing destination) followed by Reset(side', op') or PutWriter/GetWriter and every depth-2 suffix must be accepted by the monitor restarted in its Fresh state and must equal, event by event, a freshly constructed writer of the same Size(). TLC proves ResetIsFresh on the model for all bounded histories. Message reader (c18r): a first message (32 valid/invalid/truncated UTF-8 strings, 1-3 fragments) read partly or wholly or discarded, then two more messages on the same reader, judged by the memoryless monitor. Compression writer/reader, CipherReader/CipherWriter, UTF8Reader, wsflate.Extension (c18x): 3-7 histories each (flushed, failed, partial, source error, rejected, ...) then Reset and a suffix of operations whose every observation must equal a newly constructed instance's, plus the history-free FlateOps clauses on the suffix.",
+            "Bounded histories/suffixes as stated.",
             "7/C18"),
     "C04": ("model_checking",
             "TLA+ property-level monitor WsReaderMon + exhaustive TLC exploration of the implementation-level reader model (WsReaderImpl) + trace validation of the real Reader/NextReader/ReadMessage/ReadData",
